@@ -312,6 +312,7 @@ func genBreakerHistory(r *Rng, g bgen, n int) []BOpD {
 }
 
 func TestDrive_C03(t *testing.T) {
+	driveSlowDelayFuncProbes(t, "C03p")
 	w := NewCaseWriter(t, "C03", "FS.Corr.C03")
 	w.shardCap = envInt("VERIF_SHARD", 150)
 	rng := NewRng(envSeed())
